@@ -103,7 +103,12 @@ def valve_trace(pid, tier, seed, w, v, lay, tp):
     r = vh(["valve-trace", "--layouts", lay, "--templates", tp, "--runs", 6000 if quick else 150000, "--seed", seed,
             "--out-trace", tf], name=pid.lower() + "vt")
     v.add_report(r, "valve recorded exchanges")
-    validated, ts = validate_trace(v, "Trace_ValveA2S.tla", "Trace_ValveA2S.cfg", tf, splitter="Call", max_rounds=8)
+    runs = 6000 if quick else 150000
+    def redo(ix):
+        rr = vh(["valve-trace", "--layouts", lay, "--templates", tp, "--runs", ix + 1, "--seed", seed, "--dump-run", ix,
+                 "--out-trace", tf + ".redo"], name=pid.lower() + "vtr")
+        return rr.get("extra", {}).get("dumped_run")
+    validated, ts = validate_trace(v, "Trace_ValveA2S.tla", "Trace_ValveA2S.cfg", tf, splitter="Call", max_rounds=8, redo=redo)
     ts = dict(ts, cfg="Trace_ValveA2S.cfg", events=r.get("extra", {}).get("events"))
     return r, validated, ts
 
@@ -118,6 +123,10 @@ def exchange_trace(pid, tier, seed, w, v, lay, tp):
     r = vh(["exchange-trace", "--layouts", lay, "--templates", tp, "--runs", 6000 if quick else 150000, "--seed", seed,
             "--out-trace", tf], name=pid.lower() + "xt")
     v.add_report(r, "recorded single-unit exchanges")
-    validated, ts = validate_trace(v, "Trace_Exchange.tla", "Trace_Exchange.cfg", tf, splitter="Call", max_rounds=8)
+    def redo(ix):
+        rr = vh(["exchange-trace", "--layouts", lay, "--templates", tp, "--runs", ix + 1, "--seed", seed, "--dump-run", ix,
+                 "--out-trace", tf + ".redo"], name=pid.lower() + "xtr")
+        return rr.get("extra", {}).get("dumped_run")
+    validated, ts = validate_trace(v, "Trace_Exchange.tla", "Trace_Exchange.cfg", tf, splitter="Call", max_rounds=8, redo=redo)
     ts = dict(ts, cfg="Trace_Exchange.cfg", events=r.get("extra", {}).get("events"))
     return r, validated, ts
